@@ -26,6 +26,7 @@ from .. import textgen as T
 
 PROP = "C09"
 PROP_V = "theories/props/C09.v"
+MODEL_AREAS = ('front', 'tc')
 NEED_MODEL = True
 
 BAD_IMPL = {"REJECT-INTERNAL", "HANG", "PANIC", "CRASH", "MISSING"}
